@@ -134,6 +134,13 @@ impl tokio_stream::Stream for StrictStream {
 struct Wrapped(Status);
 impl std::fmt::Display for Wrapped { fn fmt(&self, f: &mut std::fmt::Formatter<'_>) -> std::fmt::Result { write!(f, "wrapped") } }
 impl std::error::Error for Wrapped { fn source(&self) -> Option<&(dyn std::error::Error + 'static)> { Some(&self.0) } }
+/// script.latency_ms (+ script.latency_us for sub-millisecond values): how long the handler takes before it answers
+fn latency_of(sc: &Value) -> Option<std::time::Duration> {
+    match (sc["latency_ms"].as_u64(), sc["latency_us"].as_u64()) { (None, None) => None, (a, b) => Some(std::time::Duration::from_micros(a.unwrap_or(0) * 1000 + b.unwrap_or(0))) }
+}
+fn dur_of(v: &Value, ms: &str, us: &str) -> Option<std::time::Duration> {
+    match (v[ms].as_u64(), v[us].as_u64()) { (None, None) => None, (a, b) => Some(std::time::Duration::from_micros(a.unwrap_or(0) * 1000 + b.unwrap_or(0))) }
+}
 fn script_status(end: &Value) -> Status {
     let (meta, _) = build_meta(&end["meta"]);
     let st = Status::with_details_and_metadata(Code::from_i32(end["code"].as_i64().unwrap_or(2) as i32),
@@ -189,7 +196,7 @@ impl Handler {
 impl Svc for Handler {
     async fn unary(&self, r: Request<Vec<u8>>) -> Result<Response<Vec<u8>>, Status> {
         self.log_req(r.metadata(), vec![r.get_ref().clone()], None);
-        if let Some(ms) = self.script["latency_ms"].as_u64() { tokio::time::sleep(std::time::Duration::from_millis(ms)).await; self.log.ev(json!({"e":"srv_done"})); }
+        if let Some(d) = latency_of(&self.script) { tokio::time::sleep(d).await; self.log.ev(json!({"e":"srv_done"})); }
         self.single()
     }
     async fn cstream(&self, r: Request<Streaming<Vec<u8>>>) -> Result<Response<Vec<u8>>, Status> {
@@ -197,13 +204,13 @@ impl Svc for Handler {
         let (msgs, err) = Self::collect(&mut s).await;
         self.log_req(&md, msgs, err.as_ref());
         if let Some(e) = err { return Err(e); }
-        if let Some(ms) = self.script["latency_ms"].as_u64() { tokio::time::sleep(std::time::Duration::from_millis(ms)).await; self.log.ev(json!({"e":"srv_done"})); }
+        if let Some(d) = latency_of(&self.script) { tokio::time::sleep(d).await; self.log.ev(json!({"e":"srv_done"})); }
         self.single()
     }
     type SStreamStream = BoxStream;
     async fn sstream(&self, r: Request<Vec<u8>>) -> Result<Response<BoxStream>, Status> {
         self.log_req(r.metadata(), vec![r.get_ref().clone()], None);
-        if let Some(ms) = self.script["latency_ms"].as_u64() { tokio::time::sleep(std::time::Duration::from_millis(ms)).await; self.log.ev(json!({"e":"srv_done"})); }
+        if let Some(d) = latency_of(&self.script) { tokio::time::sleep(d).await; self.log.ev(json!({"e":"srv_done"})); }
         self.stream()
     }
     type BidiStream = BoxStream;
@@ -212,7 +219,7 @@ impl Svc for Handler {
         let (msgs, err) = Self::collect(&mut s).await;
         self.log_req(&md, msgs, err.as_ref());
         if let Some(e) = err { return Err(e); }
-        if let Some(ms) = self.script["latency_ms"].as_u64() { tokio::time::sleep(std::time::Duration::from_millis(ms)).await; self.log.ev(json!({"e":"srv_done"})); }
+        if let Some(d) = latency_of(&self.script) { tokio::time::sleep(d).await; self.log.ev(json!({"e":"srv_done"})); }
         self.stream()
     }
 }
@@ -284,7 +291,7 @@ where
         crate::labs::REC_PAUSED.store(false, std::sync::atomic::Ordering::SeqCst);
     }
     log.ev(json!({"e":"cli_built","rejected":rejected}));
-    let tmo = c["timeout_ms"].as_u64();
+    let tmo = dur_of(c, "timeout_ms", "timeout_us");
     // the request is assembled in one of the ways the API offers, chosen by the number of metadata entries: metadata set on the finished
     // request, on a placeholder that is then map()ped to the payload, or through from_parts
     macro_rules! mkreq { ($payload:expr) => {{
@@ -293,7 +300,7 @@ where
             2 => Request::from_parts(meta.clone(), tonic::Extensions::default(), $payload),
             _ => { let mut r = Request::new($payload); *r.metadata_mut() = meta.clone(); r }
         };
-        if let Some(t) = tmo { r.set_timeout(std::time::Duration::from_millis(t)); } r }}; }
+        if let Some(t) = tmo { r.set_timeout(t); } r }}; }
     let shape = stim["shape"].as_str().unwrap_or("unary");
     let req_pend: Vec<usize> = stim["req"]["pend"].as_array().map(|a| a.iter().filter_map(|x| x.as_u64()).map(|x| x as usize).collect()).unwrap_or_default();
     let t0 = tokio::time::Instant::now();
@@ -375,7 +382,7 @@ async fn run_client_h2(stim: &Value, log: &Rec) {
         let mut sb = tonic::transport::Server::builder();
         // server.layer: a (do-nothing) tower layer added to the builder before or after the timeout is configured - the order of
         // builder calls must not matter
-        let tmo = stim["server"]["timeout_ms"].as_u64().map(std::time::Duration::from_millis);
+        let tmo = dur_of(&stim["server"], "timeout_ms", "timeout_us");
         match stim["server"]["layer"].as_str().unwrap_or("none") {
             "after_timeout" => {
                 if let Some(t) = tmo { sb = sb.timeout(t); }
